@@ -4,10 +4,8 @@
 open Clemens_model
 open Conv
 
-let text_of_string (s : string) : z list = List.init (String.length s) (fun i -> z_of_int (Char.code s.[i]))
-let string_of_text (t : z list) : string =
-  let b = Buffer.create 64 in
-  List.iter (fun c -> Buffer.add_char b (Char.chr ((int_of_z c) land 255))) t; Buffer.contents b
+let text_of_string = Posio.text_of_string
+let string_of_text = Posio.string_of_text
 
 let perft_h (line : string) : string =
   let line = String.trim line in
